@@ -48,6 +48,25 @@ def RelE {α β : Type} (R : α → β → Prop) : Except JoinErr α → Except 
   | .error e, .error e' => ofJoinErr e = e'
   | _, _ => False
 
+-- ------------------------------------------------------------------ vocabulary of the concatenation theorem (6.4.5p5-6 as a whole)
+
+/-- the bytes of an encoding prefix -/
+def prefixBytes : ChibiVerif.Spec.Literals.StrPrefix → List Byte
+  | .none => [] | .u8 => [117#8, 56#8] | .u => [117#8] | .U => [85#8] | .L => [76#8]
+
+/-- the reader `tokenize()` uses for a prefix, and the element type it gives the token (`C11_concat_spec` ties both to the translated
+    table `stringPrefixes`) -/
+def readerOf : ChibiVerif.Spec.Literals.StrPrefix → StrReader
+  | .none | .u8 => .narrow | .u => .utf16 | .U | .L => .utf32
+
+def tyOf : ChibiVerif.Spec.Literals.StrPrefix → Ty
+  | .none | .u8 => .ty_char | .u => .ty_ushort | .U => .ty_uint | .L => .ty_int
+
+/-- the token `tokenize()` makes of the string literal `prefix " items "` (`C11_strings`; first part of `C11_concat_spec`) -/
+def pieceTok (p : ChibiVerif.Spec.Literals.StrPrefix) (its : List SrcItem) : StrTok :=
+  ⟨tyOf p, its.flatMap (itemUnits (readerOf p)), (prefixBytes p).length + 1 + (renderItems its).length + 1,
+   prefixBytes p ++ 34#8 :: (renderItems its ++ [34#8])⟩
+
 -- ------------------------------------------------------------------ one run, all runs
 
 /-- `join_adjacent_string_literals` on one maximal run `tok1 :: rest` of adjacent string literals: first pass, then second pass,
@@ -91,6 +110,9 @@ def joinTokens (toks : List Tok) : Except JoinErr (List Tok) :=
 /-- run by run: both passes on the first run, then both passes on the next one, … (`C11_join_tokens`: the same result as `joinTokens`
     whenever either returns) -/
 def joinTokensPerRun (toks : List Tok) : Except JoinErr (List Tok) := overRuns runStep (toks.length + 1) toks
+
+/-- the list is empty or its first token is not a string literal (what follows a maximal run) -/
+def NoStrHead (l : List Tok) : Prop := ∀ t ∈ l.head?, t.isStr = false
 
 -- ------------------------------------------------------------------ read_file + tokenize_file
 
